@@ -1695,7 +1695,7 @@ impl<'m, 'a> Driver<'m, 'a> {
 // ------------------------------------------------------------------------------------
 // C12 / C14: rich builder bodies through the Opcode helpers, and every local-adding API
 
-fn dt_str(d: DataType) -> &'static str {
+fn dt_str(d: DataType) -> String {
     match d {
         DataType::I32 => "i32",
         DataType::I64 => "i64",
@@ -1709,10 +1709,17 @@ fn dt_str(d: DataType) -> &'static str {
         DataType::AnyNull => "anyref",
         DataType::EqNull => "eqref",
         DataType::I31Null => "i31ref",
+        // a nullable reference to a type of the module, as wasmparser prints it
+        DataType::Module { ty_id, nullable: true } => return format!("(ref null (module {}))", ty_id),
         _ => "?",
     }
+    .to_string()
 }
-fn random_local_type(rng: &mut Rng) -> DataType {
+/// `func_types`: indices of function types of the base module (a local may be a nullable reference to one of them)
+fn random_local_type(rng: &mut Rng, func_types: &[u32]) -> DataType {
+    if !func_types.is_empty() && rng.chance(1, 10) {
+        return DataType::Module { ty_id: *rng.pick(func_types), nullable: true };
+    }
     *rng.pick(&[
         DataType::I32,
         DataType::I64,
@@ -1995,7 +2002,8 @@ impl<'m, 'a> Driver<'m, 'a> {
         let pd: Vec<DataType> = p.iter().map(|t| vt_dt(*t).unwrap()).collect();
         let rd: Vec<DataType> = r.iter().map(|t| vt_dt(*t).unwrap()).collect();
         let nlocals = rng.below(6);
-        let local_tys: Vec<DataType> = (0..nlocals).map(|_| random_local_type(rng)).collect();
+        let base_func_types: Vec<u32> = self.g.types.iter().enumerate().filter(|(_, t)| matches!(t, TyInfo::Func(..))).map(|(i, _)| i as u32).collect();
+        let local_tys: Vec<DataType> = (0..nlocals).map(|_| random_local_type(rng, &base_func_types)).collect();
         let has_mem0 = self.model.mems.get(&0).map(|e| e.alive && !e.mem64).unwrap_or(false);
         let name = if rng.bool() { Some(format!("rich{}", uid)) } else { None };
         let nstmts = rng.range(2, 10);
@@ -2106,7 +2114,8 @@ impl<'m, 'a> Driver<'m, 'a> {
         let cur = self.model.flat.get(&key).cloned().unwrap_or_default();
         let ncur = if cur.is_empty() { 0 } else { split_types(&cur).len() as u32 };
         let n = rng.range(1, 3);
-        let tys: Vec<DataType> = (0..n).map(|_| random_local_type(rng)).collect();
+        let base_func_types: Vec<u32> = self.g.types.iter().enumerate().filter(|(_, t)| matches!(t, TyInfo::Func(..))).map(|(i, _)| i as u32).collect();
+        let tys: Vec<DataType> = (0..n).map(|_| random_local_type(rng, &base_func_types)).collect();
         let path = rng.below(4);
         let path_name = ["FunctionModifier::add_local", "FunctionModifier::add_locals", "LocalFunction::add_local", "ModuleIterator::add_local"][path];
         let m = &mut *self.m;
@@ -2167,7 +2176,7 @@ impl<'m, 'a> Driver<'m, 'a> {
             }
         }
         let mut all = if cur.is_empty() { vec![] } else { split_types(&cur) };
-        all.extend(tys.iter().map(|d| dt_str(*d).to_string()));
+        all.extend(tys.iter().map(|d| dt_str(*d)));
         self.model.flat.insert(key, all.join(","));
         Ok(true)
     }
